@@ -6,6 +6,8 @@
 
 #define USER_FLAGS_OK(f_) (((f_) & ~(MPT_ENUM(BufferImmutable) | MPT_ENUM(BufferNoCopy))) == 0)
 
+static const MPT_STRUCT(type_traits) *g_chr;
+const MPT_STRUCT(type_traits) *mpt_type_traits(MPT_TYPE(type) t) { return t == 'c' ? g_chr : 0; }
 void harness(void)
 {
 	IN(size_t, in_size); IN(size_t, in_used); IN(uintptr_t, in_refs); IN(int, in_flags); IN(int, in_has_buf);
@@ -47,6 +49,25 @@ void harness(void)
 		V_COVER("appended into a shared buffer with free space", ret && shared && oused + in_len <= in_size && in_len > 0);
 		V_COVER("grown", ret && nb != b0 && in_has_buf);
 		V_COVER("first data", ret && !in_has_buf && in_len > 0);
+	}
+#elif defined(UNIT_STRING)
+	{
+		/* mpt_array_string on character data: the returned text is the handle's OWN content (also after the handle was
+		 * moved to a private or larger buffer), terminated, with the old bytes in front; the observer is untouched */
+		char *ret; static const MPT_STRUCT(type_traits) h_chr = MPT_TYPETRAIT_INIT(1);
+		V_REQ(in_has_buf);
+		b0->_content_traits = &h_chr; g_chr = &h_chr;
+		ret = mpt_array_string(&h);
+		nb = h._buf;
+		if (ret) {
+			V_CHECK("string: the text is the handle's own buffer content", nb != 0 && (const uint8_t *) ret == H_DATA(nb));
+			V_CHECK("string: old characters kept, a terminator inside the used part", IMP(in_k < oused, H_BYTE(nb, in_k) == ok_) && nb->_used <= nb->_size && nb->_used >= oused && nb->_used <= oused + 1);
+			V_CHECK("string: terminated within the used part", IMP(nb->_used == oused + 1, H_BYTE(nb, oused) == 0));
+		} else {
+			V_CHECK("string: failure leaves the handle's content", h._buf == b0 && b0->_used == oused);
+		}
+		V_COVER("terminator appended to a shared buffer (private copy)", ret && shared && nb != b0);
+		V_COVER("terminator already inside", ret && nb == b0 && b0->_used == oused);
 	}
 #elif defined(UNIT_INSERT)
 	{
